@@ -59,6 +59,8 @@ def gen_sessions(rng, count):
             out.append(dict(id="s%d" % k, tab=tab, file=file_text, expr=expr, stdin=None))
         else:
             lines = [l.replace("\n", " ") for l in body]
+            if rng.random() < 0.3:
+                lines = [("\t" + l.replace(" ", "\t", 1)) if rng.random() < 0.5 else l for l in lines]
             end = rng.choice(["exit", "EXIT", "Exit", " exit  ", "eXiT", None, None])
             after = ["x", "1 + 1"] if end else []
             out.append(dict(id="s%d" % k, tab=tab, file=file_text, expr=None, stdin=lines, end=end, after=after))
@@ -105,6 +107,11 @@ def gen_sessions(rng, count):
     out.append(dict(id="w0", tab=4, file=None, expr="fib(0) = 0; fib(1) = 1; fib(k) = fib(k-1) + fib(k-2); fib(26); 1 + 1", stdin=None))
     out.append(dict(id="x0", tab=4, file=None, expr=None, stdin=["exit = 5", "exit * 2", "Exit + 1", "EXIT as km", "exit_code = 1", "exits", "quit", "q", "e", "ex", "exi", "bye", "x = exit", "x"], end="exit", after=["x"]))
     out.append(dict(id="x1", tab=4, file=None, expr=None, stdin=["w = 1  ", "1 +  ", "(w + 1  ", "\tw\t", "   1/0", "\t\t2 + nope", " \t #"], end=None, after=[]))
+    for tb in (0, 1, 8, 255):
+        out.append(dict(id="x1t%d" % tb, tab=tb, file=None, expr=None, stdin=["w = 1", "\tw +", "\t\t1/0", "w\t% 0", " \t #", "\tsin(1, 2)"], end=None, after=[]))
+        out.append(dict(id="x6t%d" % tb, tab=tb, file="w = 1\n\tw +\n", expr="\t\t1/0\n w\t% 0", stdin=None))
+        out.append(dict(id="x7t%d" % tb, tab=tb, file="w = 1\n\t\t1/0\nw\t% 0\n\tsin(1, 2)\n", expr="w", stdin=None))
+    out.append(dict(id="sh0", tab=4, file=None, expr="[1;2;3] dot [4;5]; [1,2] dot [3,4,5]; [1,2;3,4] dot [5,6;7,8]; [1,2,3] cross [1,2]; [1;2] cross [1;2;3]; [1,2;3,4] * [1,2,3]; determinant([1,2,3]); inverse([1,2;3,4;5,6]); identity(0); 7", stdin=None))
     out.append(dict(id="x2", tab=8, file="w = 2\n(w + 1  ", expr="1 +  ", stdin=None))
     out.append(dict(id="x3", tab=8, file="w = 2\n(w + 1  \n", expr="1 +\t", stdin=None))
     out.append(dict(id="x4", tab=4, file="w = 2 \x0c", expr="w", stdin=None))
@@ -234,7 +241,7 @@ def run_front(ctx, repeat=1, cross_modes=True, vary_env=False):
                 rep.violation("front: the binary's output differs from the in-process prediction for session %s" % describe(s), case=json_case(s),
                               impl=dict(rc=rc, stdout=so, stderr=se[-300:]), model=dict(predicted=pred), stream="front",
                               oracle="documented front-end contract: file first, then expression or prompt lines, each text with a final newline")
-        if any(o[:2] != outs[0][:2] for o in outs[1:]):       # exit status and stdout (stderr carries the backtrace setting of a known abort)
+        if any((o[:2] if s.get("aborts") else o) != (outs[0][:2] if s.get("aborts") else outs[0]) for o in outs[1:]):       # exit status and stdout (stderr carries the backtrace setting of a known abort)
             nondet += 1
             if nondet <= 5:
                 rep.violation("front: repeated runs of session %s differ" % describe(s), case=json_case(s),
